@@ -1010,8 +1010,115 @@ fn gcase() -> BoxedStrategy<QCase> {
         .boxed()
 }
 
+/// A collection with *very many* keys (see C02's `ManyKeys`: n keys are n^2/2 pairs, so whatever the
+/// collection keeps per key - a digest, a bucket, a narrow index - meets its collisions). Built by
+/// insert in a generated order and by try_from_iter, compared with the reference map, probed in
+/// another letter case, thinned out by remove / entry / retain, compared again.
+fn o_many(c: &crate::props::c02::ManyKeys, st: &mut Stats) -> Result<(), String> {
+    if c.n > 200_000 || c.order > 2 {
+        return Err("bad replay case: many-keys parameters".into());
+    }
+    let r = guard(|| -> Result<(), String> {
+        let sorted = crate::props::c02::many_keys(c.seed, c.n);
+        let n = sorted.len();
+        let order: Vec<usize> = match c.order {
+            0 => (0..n).collect(),
+            1 => (0..n).rev().collect(),
+            _ => (0..n).map(|i| if i % 2 == 0 { i / 2 } else { n - 1 - i / 2 }).collect(),
+        };
+        let spelled = |i: usize| -> String {
+            let k = &sorted[i].0;
+            if crate::engine::mix(&[c.seed, i as u64, 11]) % 3 == 0 {
+                k.to_ascii_uppercase()
+            } else {
+                k.clone()
+            }
+        };
+        let mut m: Model = Model::new();
+        let mut q = Qualifiers::default();
+        for &i in &order {
+            let before = q.len();
+            let slot = q.insert(spelled(i), sorted[i].1.as_str()).map_err(|e| format!("insert of the valid key {:?} failed: {e}", sorted[i].0))?;
+            if slot.as_str() != sorted[i].1 {
+                return Err(format!("insert({:?}) returns a reference to {:?}, not to the value just stored", sorted[i].0, slot.as_str()));
+            }
+            if q.len() != before + 1 {
+                return Err(format!("insert of the new key {:?} (one of {n} distinct keys) did not add an entry", sorted[i].0));
+            }
+            m.insert(sorted[i].0.clone(), sorted[i].1.clone());
+        }
+        check_content(&q, &m, &format!("{n} inserts")).map_err(|e| e.chars().take(400).collect::<String>())?;
+        let from_iter = Qualifiers::try_from_iter(order.iter().map(|&i| (spelled(i), sorted[i].1.as_str())))
+            .map_err(|e| format!("try_from_iter over {n} distinct keys failed: {e}"))?;
+        if from_iter != q || hash_of(&from_iter) != hash_of(&q) || from_iter.cmp(&q) != Ordering::Equal {
+            return Err(format!("{n} keys: the collection made by try_from_iter differs from the one made by insert"));
+        }
+        // lookups in the other letter case
+        for (i, (k, v)) in sorted.iter().enumerate() {
+            let probe = if i % 2 == 0 { k.to_ascii_uppercase() } else { k.clone() };
+            if q.get(probe.as_str()) != Some(v.as_str()) || !q.contains_key(probe.as_str()) {
+                return Err(format!("{n} keys: get({probe:?}) gives {:?}, reference {v:?}", q.get(probe.as_str())));
+            }
+        }
+        // thin out: remove, entry-remove, retain
+        for (i, (k, v)) in sorted.iter().enumerate() {
+            match i % 5 {
+                0 => {
+                    let got = q.remove(k.to_ascii_uppercase());
+                    if got.as_deref() != Some(v.as_str()) {
+                        return Err(format!("{n} keys: remove({k:?}) returned {got:?}, reference {v:?}"));
+                    }
+                    m.remove(k);
+                },
+                1 => {
+                    match q.entry(k.as_str()).map_err(|e| format!("entry({k:?}) failed: {e}"))? {
+                        Entry::Occupied(o) => {
+                            let got = o.remove();
+                            if got.as_str() != v.as_str() {
+                                return Err(format!("{n} keys: entry({k:?}).remove() returned {got:?}, reference {v:?}"));
+                            }
+                        },
+                        Entry::Vacant(_) => return Err(format!("{n} keys: entry({k:?}) is vacant although the key was inserted")),
+                    }
+                    m.remove(k);
+                },
+                _ => {},
+            }
+        }
+        check_content(&q, &m, "removing two fifths").map_err(|e| e.chars().take(400).collect::<String>())?;
+        q.retain(|k, _| k.as_str().len() % 2 == 0);
+        m.retain(|k, _| k.len() % 2 == 0);
+        check_content(&q, &m, "retain(even key length)").map_err(|e| e.chars().take(400).collect::<String>())?;
+        for (k, _) in sorted.iter().step_by(3) {
+            if q.contains_key(k.as_str()) != m.contains_key(k) {
+                return Err(format!("{n} keys, after thinning out: contains_key({k:?}) is {}, reference {}", q.contains_key(k.as_str()), m.contains_key(k)));
+            }
+        }
+        Ok(())
+    });
+    match r {
+        Err(m) => return Err(format!("a qualifier operation panicked: {m}")),
+        Ok(r) => r?,
+    }
+    st.class(match c.n {
+        0..=9_999 => "thousands of keys",
+        10_000..=65_535 => "tens of thousands of keys",
+        _ => "more than 65535 keys",
+    });
+    st.nontrivial(&(c.seed, c.n, c.order), || json!({ "seed": c.seed, "keys": c.n, "order": c.order }));
+    Ok(())
+}
+
 pub fn sections() -> Vec<Box<dyn Section>> {
     vec![
+        Box::new(Random {
+            name: "very-many-keys".into(),
+            quick: 160,
+            thorough: 4_000,
+            strategy: Box::new(|_: Tier| crate::props::c02::gmany()),
+            oracle: o_many,
+            required: vec!["thousands of keys", "tens of thousands of keys", "more than 65535 keys"],
+        }),
         Box::new(Enumerated {
             name: "every-content-x-every-operation".into(),
             total: Box::new(|_| enum_total()),
@@ -1081,6 +1188,18 @@ pub fn o_case_pub(c: &QCase, st: &mut Stats) -> Result<(), String> {
             st.nontrivial(&(&c.init, &c.ops, "c06"), || json!({ "ops": c.ops.len() }));
             Ok(())
         },
+    }
+}
+
+/// For C19: put a collection through the operations of a case; what each operation returns is C11's
+/// business and is not looked at.
+pub fn drive(q: &mut Qualifiers, c: &QCase) {
+    let mut m = Model::new();
+    for (k, v) in &c.init {
+        let _ = step(q, &mut m, &QOp::Insert(k.clone(), v.clone()));
+    }
+    for op in &c.ops {
+        let _ = step(q, &mut m, op);
     }
 }
 
